@@ -273,6 +273,7 @@ def run(tier, seed):
                "double-precision rounding of a + h*points for |a| >> h is outside the exact-arithmetic statement")
     chk.trust("z3 rational arithmetic", "CPython fractions / numpy object arrays")
     add_obligations(chk, tier, seed)
+    guarded(chk, 'bounded part seminorm call histories', history_clauses, chk)
     from bounded import corner_ref
     guarded(chk, 'bounded part corner_ref.run', corner_ref.run, chk, tier, seed)
     return chk.finish()
@@ -311,6 +312,11 @@ def add_obligations(chk, tier, seed):
                 else:
                     ob = Ob(name, FAILED, backend="sympy-expand", detail=dict(reason=want))
                     attach(ob, SCALE_REPLAY, bucket="sym")
+                    if str(want).startswith("the body is not pure arithmetic"):
+                        # the body could not be executed on indeterminates (a comparison on a scale-dependent quantity, or merely a
+                        # construct outside symbolic execution such as a preallocated buffer): a violation only when the replay over
+                        # extreme scales finds a failing interval on the real code, otherwise undecided
+                        settle_crash(ob, bucket="sym")
                     chk.add(ob)
                 continue
             if kind == "pos":
@@ -344,6 +350,99 @@ def add_obligations(chk, tier, seed):
     chk.vacuity = dict(orders_h12=orders12, orders_h14=orders14, ground_obligations=len(queries))
     chk.under_contract("src.norms:Slobodeckij.seminorm_h_1_2_pw")
     smt.close_pool()
+
+
+HISTORY_CODE = '''
+import numpy as np
+from src.norms import Slobodeckij
+from src.parametrization import UnitSquare, Circle
+bad = []
+f = lambda x: 1.0 + x + 0.5 * x ** 2
+def fresh(n4, n2, meth, *args):
+    return getattr(Slobodeckij(n4, n2), meth)(*args)
+cases = [("seminorm_h_1_4", (f, 0.25, 1.5)), ("seminorm_h_1_2", (f, 0.25, 1.5)), ("seminorm_h_1_4", (f, 2.0, 2.0625)), ("seminorm_h_1_2", (f, 2.0, 2.0625))]
+# (1) several objects of different orders alive at once, interleaved calls, repeated calls: every value == the value from a new object
+objs = [Slobodeckij(5, 9), Slobodeckij(11), Slobodeckij(9, 5), Slobodeckij(5, 9)]
+orders = [(5, 9), (11, 11), (9, 5), (5, 9)]
+for rnd in range(2):
+    for meth, args in (cases if rnd == 0 else cases[::-1]):
+        for S, (n4, n2) in zip(objs, orders):
+            v = getattr(S, meth)(*args)
+            if v != fresh(n4, n2, meth, *args):
+                bad.append(("value-depends-on-other-objects-or-earlier-calls", meth, (n4, n2), args[1:], float(v)))
+# (2) an integrand that itself evaluates a seminorm with the SAME object (re-entrant use)
+S = Slobodeckij(7)
+inner14, inner12 = S.seminorm_h_1_4(f, 2.0, 2.75), S.seminorm_h_1_2(f, 2.0, 2.75)
+for meth, inner_meth, inner in (("seminorm_h_1_4", "seminorm_h_1_2", inner12), ("seminorm_h_1_2", "seminorm_h_1_4", inner14),
+                                ("seminorm_h_1_2", "seminorm_h_1_2", inner12), ("seminorm_h_1_4", "seminorm_h_1_4", inner14)):
+    plain = getattr(S, meth)(f, 0.25, 1.5)
+    def g(x, S=S, inner_meth=inner_meth):
+        w = getattr(S, inner_meth)(f, 2.0, 2.75)
+        return f(x) * (w / w)
+    nested = getattr(S, meth)(g, 0.25, 1.5)
+    if abs(nested - plain) > 1e-12 * abs(plain):
+        bad.append(("nested-use-of-one-object", meth, inner_meth, float(nested), float(plain)))
+# (3) an integrand may keep the node array it was given; later calls do not change it
+kept = []
+S.seminorm_h_1_2(lambda x: (kept.append(x), f(x))[1], 0.25, 1.5)
+snaps = [np.array(k, copy=True) for k in kept]
+S.seminorm_h_1_2(f, 3.0, 4.0); S.seminorm_h_1_4(f, 3.0, 4.0)
+if not all(np.array_equal(k, s0) for k, s0 in zip(kept, snaps)):
+    bad.append(("node-array-handed-to-the-integrand-changed-by-a-later-call",))
+# (4) curve-aware and two-piece variants: repeated / interleaved calls on two curves
+sq, ci = UnitSquare(), Circle()
+fg = lambda x, gamma: 1.0 + gamma(x)[0] * 0.5 + gamma(x)[1] ** 2
+def curve_vals(S):
+    return (S.seminorm_h_1_2(fg, 0.25, 0.75, sq.pw_gamma[0]), S.seminorm_h_1_2(fg, 0.25, 0.75, ci.pw_gamma[0]),
+            S.seminorm_h_1_2_pw(fg, 0.5, 1.0, sq.pw_gamma[0], 1.0, 1.5, sq.pw_gamma[1]))
+ref = curve_vals(Slobodeckij(9))
+S9 = Slobodeckij(9)
+for k in range(2):
+    got = curve_vals(S9)[::-1][::-1] if k == 0 else tuple(reversed(tuple(reversed(curve_vals(S9)))))
+    if got != ref:
+        bad.append(("curve-aware-value-depends-on-earlier-calls", k, tuple(map(float, got)), tuple(map(float, ref))))
+# (5) parametrisations come and go while one Slobodeckij object lives on: a curved piece is used and dropped, then a newly built
+# straight segment (which may get the dropped object's address) is evaluated over the same interval
+from src.parametrization import line, circle
+import gc
+Slong = Slobodeckij(9)
+fgl = lambda x, gamma: 1.0 + x + 0.5 * x ** 2
+rng = np.random.RandomState(3)
+for trial in range(12):
+    a_, b_ = 0.25, 0.25 + 0.5 * (1 + trial % 3)
+    r = 0.3 + 0.2 * (trial % 4)
+    def curved(x, r=r):
+        return np.array([r * np.cos(np.asarray(x) / r), r * np.sin(np.asarray(x) / r)])
+    Slong.seminorm_h_1_2(fgl, a_, b_, curved)
+    del curved
+    gc.collect()
+    p0 = rng.uniform(-3, 3, size=2)
+    ang = rng.uniform(0, 2 * np.pi)
+    seg, _ = line(p0, p0 + 4.0 * np.array([np.cos(ang), np.sin(ang)]))
+    got = Slong.seminorm_h_1_2(fgl, a_, b_, seg)
+    want = Slobodeckij(9).seminorm_h_1_2(fgl, a_, b_, seg)
+    if got != want:
+        bad.append(("value-depends-on-a-parametrisation-that-no-longer-exists", trial, float(got), float(want)))
+    del seg
+observed = bad[:6]
+violated = len(bad) > 0
+'''
+
+
+def history_clauses(chk):
+    """bounded run-time clauses on the real code (doubles): the seminorm routines are functions of their arguments -- several
+    Slobodeckij objects alive at once, interleaved and repeated calls, nested use of one object, kept node arrays"""
+    from vlib.replay import run_replay
+    res = run_replay(HISTORY_CODE, True)
+    name = "C14/bounded/src.norms:Slobodeckij/values-independent-of-other-objects-earlier-calls-and-nested-use"
+    if res.get("violated"):
+        chk.add(Ob(name, FAILED, kind="bounded", backend="runtime-contract", detail=dict(observed=res.get("observed"), error=res.get("error")),
+                   replay=dict(code=HISTORY_CODE, raises_is_violation=True, outcome=res, confirmed=True)))
+    else:
+        chk.add(Ob(name, DISCHARGED, kind="bounded", backend="runtime-contract"))
+    chk.add_bounded("seminorm call histories", 2 * 4 * 4 + 4 + 1 + 2, 4,
+                    "four objects of orders (5,9), (11,11), (9,5), (5,9); intervals [0.25,1.5], [2,2.0625]; nested use on [2,2.75]; unit square and circle pieces",
+                    "every value == the value from a newly constructed object (bitwise); nested == plain (1e-12); kept node arrays unchanged", [name])
 
 
 def replay_code(name):
